@@ -69,7 +69,7 @@ for pid in sorted(PROPS):
         level_claimed=dict(category="proof", text=TEXT[pid] + tie_text(pid), design_ref="DESIGN.md §8 " + pid + (", §16" if pid in TIE else "")),
         level_note=NOTE + tie_note(pid) + (("Partial: " + p["partial"]) if p.get("partial") else ""),
         technique=("Lean 4 machine-checked proof over a hand-written model + differential correspondence check (Rust harness vs compiled Lean driver)" +
-                   ("; scanner-core definitions regenerated from the Rust source by a translator and proved equal to the model on every run" if pid in TIE else ""))
+                   ("; the functions the property is anchored in are regenerated from the Rust source by a translator (tools/rs2lean.py) and proved equal to the model on every run" if pid in TIE else ""))
                   if pid != "C20" else "Lean 4 `decide +kernel` over a table regenerated by a translator + exhaustive cargo check sweep",
     ))
 man = dict(
